@@ -767,9 +767,9 @@ Proof.
   exists j. split; assumption.
 Qed.
 
-(* with the executable codec of Json/JsonWktLite.v the base64 hypothesis is discharged (Json/JsonB64P.v);
+(* with the executable codec of Json/JsonWktLite.v the base64 hypothesis is discharged (Json/JsonB64RtP.v);
    the Timestamp / Duration string forms remain hypotheses (C23) *)
-From PB Require Import Json.JsonWktLite Json.JsonB64P.
+From PB Require Import Json.JsonWktLite Json.JsonB64RtP.
 
 Theorem json_roundtrip_std_except_F11_partial (o : jopts) S nm lim fuel tid v :
   (forall s n, ts_in_range s n = true -> ts_parse_canon (ts_format s n) = Some (s, n)) ->
